@@ -5,8 +5,8 @@ from ..fdai import EnumV, AggV, K, SymV, RefV, Cell, Loc, TOP, load, snapshot
 from . import contrib as CB
 
 LEVEL = "other"
-TECHNIQUE = "field-effect summaries by FDAI: the bitwise DAG that EventRegister::set_condition writes to `event` is canonicalised to its per-bit truth table over (event, old condition, new condition, ptr, ntr) - 32 rows, complete because bitwise operators are bit-parallel - and compared with the SCPI-99 latch formula; effect summaries of preset/clear_event/set_condition_bits/clear_condition_bits; handler tables (EVENt? read-and-clear, CONDition? read-only, enable/filter field pairing, 0x7FFF mask); who-writes census of the five register fields"
-LEVEL_TEXT = "The register is five plain fields; every function that writes one of them is enumerated (census over the MIR of scpi-contrib) and the effect of each writer is summarised exactly: the latch formula as a complete 32-row truth table, PRESet/clear as field assignments, the command handlers as read/write/mask tables. Histories then follow from 'writers enumerated, each writer's effect a checked formula'."
+TECHNIQUE = 'abstract device model (sa/rules/devmodel.py): EventRegister::set_condition / set_condition_bits / clear_condition_bits / preset / clear_event and the STATus command handlers (both register sets) are interpreted by the FDAI engine on concrete register words; set_condition is evaluated on bit-sliced inputs that place all 32 per-bit combinations of (event, old, new, ptr, ntr) on several bit positions including bit 15, and the resulting register is compared with the SCPI-99 latch formula; handlers: response value and final registers for boundary words; census of every function that writes a register field'
+LEVEL_TEXT = "The register is five plain words. The latch is decided per bit completely (bitwise code is bit-parallel; the sliced inputs cover every combination on several positions, so position-dependent code shows as well); PRESet / *CLS / clear as final-state comparisons; every query answers its word with bit 15 clear and changes nothing except EVENt?, which clears what it returns; ENABle/PTR/NTR store the 16-bit parameter in their own word of the addressed set only. Histories then follow from 'writers enumerated (census), each writer's effect exactly known'."
 LEVEL_NOTE = "Not decided: arbitrary histories (argued from the writer census and the per-writer formulas); device code may write the public fields directly. Trusted: rustc MIR, FDAI models."
 
 ER = "scpi_contrib::scpi1999::EventRegister"
